@@ -742,11 +742,13 @@ class _FuncEval:
         for e in self.s.exits[n_exits_before:]:
             if e.kind == "raise" and e.handled is None:
                 e.handled = tid
-        if out is not None and s.orelse:
-            out = self.block(s.orelse, out)
+        if out is not None:
+            out = State(out.env, out.cond + ((("raises", tid), False),))
+            if s.orelse:
+                out = self.block(s.orelse, out)
         results = []  # [(handler index | None for the normal path, State)]
         if out is not None:
-            results.append((None, State(out.env, out.cond + ((("raises", tid), False),))))
+            results.append((None, out))
         for k, h in enumerate(s.handlers):
             hst = State(st.env.copy(), st.cond + ((("raises", tid), True), (("handler", tid, k), True)))
             # variables assigned in the try body are uncertain in the handler
@@ -1086,6 +1088,7 @@ class _FuncEval:
 
     # ------------------------------------------------------------------ calls
     def call(self, n: ast.Call, st: State, stmt_ctx: bool = False) -> Term:
+        self._stmt_call = n if stmt_ctx else None
         # super()
         if isinstance(n.func, ast.Attribute) and isinstance(n.func.value, ast.Call) and \
                 isinstance(n.func.value.func, ast.Name) and n.func.value.func.id == "super":
@@ -1299,10 +1302,28 @@ class _FuncEval:
         except RecursionError:
             return self.record(fn, args, kwargs, st, n)
         live = [e for e in sm.exits if e.kind in ("ret", "raise")]
+        if getattr(self, "_stmt_call", None) is n and not sm.loops and not sm.effects and not sm.unsupported and not sm.trys:
+            # a guard helper called for its checks only (`_validate(x, y)` as a statement): its raise exits become exits of the
+            # caller, and the caller continues under the condition of the helper's single normal return
+            raises = [e for e in live if e.kind == "raise"]
+            rets = [e for e in live if e.kind == "ret"]
+            if raises and len(rets) == 1 and not any(c.fn[0] in ("func", "closure", "boundcls") and not c.inlined for c in sm.calls):
+                for e in raises:
+                    self.s.exits.append(Exit("raise", e.value, st.cond + e.cond, e.node, tuple(self.loop_stack)))
+                for c in sm.calls:
+                    self.s.calls.append(CallRec(c.fn, c.args, c.kwargs, st.cond + c.cond, tuple(self.loop_stack), n,
+                                                c.result, tuple(self.try_stack), c.inlined))
+                ca, ck = self.canon_call(fn, list(args), dict(kwargs))
+                self.s.calls.append(CallRec(fn, tuple(ca), tuple(sorted(ck.items())), st.cond, tuple(self.loop_stack), n,
+                                            ("const", None), tuple(self.try_stack), True))
+                st.cond = st.cond + rets[0].cond
+                return ("const", None)
         leaf = not any(c.fn[0] in ("func", "closure", "boundcls") and not c.inlined for c in sm.calls)
         body = [b for b in getattr(f.node, "body", []) if not (isinstance(b, ast.Expr) and isinstance(b.value, ast.Constant))] \
             if not isinstance(f.node, ast.Lambda) else []
         expr_wrapper = isinstance(f.node, ast.Lambda) or (len(body) == 1 and isinstance(body[0], ast.Return))
+        if f.nested or f.nested_classes:
+            leaf = expr_wrapper = False  # a function that defines local helpers is a unit of its own, analysed as a call
         if (len(live) == 1 and live[0].kind == "ret" and not live[0].cond and not sm.loops and not sm.effects
                 and not sm.unsupported and not sm.trys and (leaf or expr_wrapper)):
             # single-return wrapper: inline the value; its own calls become call records of the caller
